@@ -40,6 +40,46 @@ class CostFitness(FitnessFunction):
         return float("nan") if g % 13 == 12 else float(g)
 
 
+class OffsetFitness(FitnessFunction):
+    """fitness = genome + offset, where `offset` is state of the fitness-function OBJECT that the caller changes in place between
+    evaluation calls (as RandomSubsetEvaluation and the predictor island do with the training data)"""
+
+    def __init__(self, offset=0.0):
+        super().__init__()
+        self.offset = offset
+
+    def __call__(self, individual):
+        self.eval_count += 1
+        return float(individual.values[0]) + self.offset
+
+
+def changing_function(ctx, rep):
+    """the SAME evaluator is called again after its fitness function was changed in place: every due slot gets the value of the
+    function as it is NOW, in worker processes as in serial evaluation"""
+    rng = ctx.rng
+    for t in range(ctx.n(6, 40)):
+        nproc = rng.choice([False, 1, 2, 3])
+        fit = OffsetFitness(0.0)
+        ev = Evaluation(fit, redundant=rng.random() < 0.5, multiprocess=nproc)
+        offsets = [float(rng.randrange(-5, 6)) for _ in range(rng.randrange(2, 5))]
+        case = {"multiprocess": nproc, "offsets": offsets, "redundant": ev._redundant}
+        rep.case(("changing-function", t, str(nproc)), True)
+        rep.count("changing_function", f"multiprocess={nproc}")
+        pop = [MultipleValueChromosome([rng.randrange(20)]) for _ in range(rng.randrange(2, 7))]
+        for k, off in enumerate(offsets):
+            fit.offset = off                       # in place: the evaluator keeps the same function object
+            for c in pop:
+                c.fit_set = False
+            with warnings.catch_warnings():
+                warnings.simplefilter("ignore")
+                ev(pop)
+            bad = [(int(c.values[0]), c.fitness) for c in pop if not (c.fit_set and c.fitness == float(c.values[0]) + off)]
+            if bad:
+                rep.violate(f"call {k + 1} of one evaluator (multiprocess={nproc}) after the fitness function's state was set to offset {off}: "
+                            f"slots hold (genome, fitness) {bad[:3]}, expected genome + {off}", "C19:stale-fitness-function", {**case, "call": k + 1})
+                break
+
+
 class EffectFitness(FitnessFunction):
     """a fitness function that CHANGES the individual it is called on (as local optimization does): values = [genome, state];
     state' = (7 g + 3 s + 1) % 11 is stored in the individual, the returned fitness is a function of g and state' (NaN when
@@ -245,6 +285,7 @@ def run(ctx, rep):
             if toks[0] != "ok" or int(toks[1]) != cnt or int(toks[2]) != cnt or toks[3] != "1" or mflags != after:
                 rep.disagree(f"evaluation phase: model '{o}' vs code count={cnt} flags={after}", {"line": line, **case})
     effect_correspondence(ctx, rep)
+    changing_function(ctx, rep)
     optimizer_counts(ctx, rep)
 
 
